@@ -705,6 +705,22 @@ def monitorOp (mu : Mon) (prev : Args) (toks : List String) (implOk : Bool) (out
       | some t0 => if v.1 == "" || t0 == v.2 then none else
           some (mk "C05" "C05/flex/threshold-changed" s!"id={v.1} at_creation={t0} now={v.2}")
       | none => none)
+    -- a vote by an address with weight >= 1 in the proposal's snapshot, which has not voted yet, on an unexpired
+    -- proposal that is not executed, is accepted whatever happened to the group afterwards
+    let f6 := f6 ++ (if fresh || kind != "vote" || handlerOk then [] else
+      match findProp P opId, findRaw P opId with
+      | some p, some r =>
+        (match snapAt P r.start with
+          | some sn =>
+            let w := (snapMember sn snd).getD 0
+            let voted := P.votes.any fun b => b.id == opId && b.addr == snd
+            let dirty := mu.createdDirty.contains opId
+            if w ≥ 1 && !voted && !isExp p.expires blk && r.status != "executed" && (Cw3.Vote.parse (a.str "vote")).isSome && !dirty
+               && (tallyOf P.votes opId).total + w ≤ p.total then
+              [mk "C06" "C06/flex/eligible-voter-refused" s!"id={opId} voter={snd} snapshot_weight={w}"]
+            else []
+          | none => [])
+      | _, _ => [])
     let f6 := f6 ++
       (if (cur.list "pvotes").all (fun b => (cur.list "votes").contains b) then [] else [mk "C06" "C06/flex/vote-views-differ" "Vote vs ListVotes"]) ++
       (let ks := O.votes.map fun b => (b.id, b.addr)
